@@ -92,12 +92,19 @@ type kind int
 type Exp struct {
 	K  kind
 	Ks []kind
+	// element types that mention the unexported type in a map key / value / array / channel
+	ByKind  []map[kind]int
+	ToKind  []map[string]kind
+	KindArr [][2]kind
 }
 
 type Exp2 struct {
-	K   kind
-	Ks  []kind
-	Pad int
+	K       kind
+	Ks      []kind
+	Pad     int
+	ByKind  []map[kind]int
+	ToKind  []map[string]kind
+	KindArr [][2]kind
 }
 
 // CaseTwin has members that differ in letter case only, one of each pair hidden.
